@@ -19,6 +19,7 @@ import RedoModel.ParWire
 import RedoModel.ParFWire
 import RedoModel.RowCacheWire
 import RedoModel.CyclesWire
+import RedoModel.RunLoopWire
 open RedoModel RedoModel.Wire
 
 def decList (s : String) : Option (List (List Char)) :=
@@ -69,17 +70,21 @@ def respond (line : String) : String :=
     | some t, some b => enc (Paths.relpathLex t b)
     | _, _ => "bad-op"
   | ["relpath-full", cwd, t, b, ct, cb] =>
-    -- ct / cb: canonical form of the directory part of (absolutised) t / base, `!` when it does not exist
+    -- ct / cb: what `Path::canonicalize` answers for the directory part of (absolutised) t / base and for its leading
+    -- parts: `;`-separated `<path>=<canonical path>` pairs (hex), paths that do not exist are left out; `!` = none exist
+    let table (x : String) : List (List Char × List Char) :=
+      if x = "!" then [] else
+      (x.splitOn ";").filterMap fun e =>
+        match e.splitOn "=" with
+        | [a, c] => match dec a, dec c with
+          | some a, some c => some (a, c)
+          | _, _ => none
+        | _ => none
     match dec cwd, dec t, dec b with
     | some cwd, some t, some b =>
-      let tabs := if Paths.rooted t then t else Paths.pushPath cwd t
-      let dn (p : List Char) : List Char := match Paths.splitLast p with
-        | some (d, _) => d
-        | none => []
+      let tab := table ct ++ table cb
       let canon : List Char → Option (List Char) := fun d =>
-        if d = dn tabs then (if ct = "!" then none else dec ct)
-        else if d = dn b then (if cb = "!" then none else dec cb)
-        else none
+        (tab.find? (fun e => e.1 == d)).map (·.2)
       enc (Paths.relpath canon cwd t b)
     | _, _, _ => "bad-op"
   | ["dofiles", p] =>
@@ -147,6 +152,7 @@ def respond (line : String) : String :=
   | ["parf-replay", graph, kg, tops, evs] => ParFWire.respond graph kg tops evs
   | ["parf-serial", graph, kg, tops] => ParFWire.respondSerial graph kg tops
   | ["waits-replay", reach, evs] => WaitsWire.respond reach evs
+  | ["runloop-replay", kg, evs] => RunLoopWire.respond kg evs
   | ["stamp-override", a, b] =>
     match dec a, dec b with
     | some a, some b => toString (StampStr.detectOverride a b)
